@@ -25,7 +25,7 @@ def build_harness():
     return time.time() - t0
 
 
-def _run_shard(items_file, out_file, stride, offset, n_items, per_prog_timeout, binary=DRIVER, extra_env=None):
+def _run_shard(items_file, out_file, stride, offset, n_items, per_prog_timeout, binary=DRIVER, extra_env=None, extra_args=()):
     """Run one shard; restart after aborts/hangs. Returns dict i -> result."""
     results = {}
     start = 0
@@ -35,7 +35,7 @@ def _run_shard(items_file, out_file, stride, offset, n_items, per_prog_timeout, 
     while True:
         if os.path.exists(out_file):
             os.remove(out_file)
-        cmd = [binary, items_file, out_file, "--stride", str(stride), "--offset", str(offset), "--start", str(start)]
+        cmd = [binary, items_file, out_file, "--stride", str(stride), "--offset", str(offset), "--start", str(start)] + list(extra_args)
         p = subprocess.Popen(cmd, stdout=subprocess.DEVNULL, stderr=subprocess.PIPE, env=env)
         # watchdog: the child must produce a line at least every per_prog_timeout seconds
         last_size, last_change = -1, time.time()
@@ -91,7 +91,7 @@ def _run_shard(items_file, out_file, stride, offset, n_items, per_prog_timeout, 
     return results
 
 
-def run_items(workdir, items, jobs=12, per_prog_timeout=120, tag="items", binary=DRIVER, extra_env=None):
+def run_items(workdir, items, jobs=12, per_prog_timeout=120, tag="items", binary=DRIVER, extra_env=None, extra_args=()):
     """items: list of {"prog":..., "cfg":...}. Returns list of results in order."""
     os.makedirs(workdir, exist_ok=True)
     items_file = os.path.join(workdir, f"{tag}.json")
@@ -100,7 +100,7 @@ def run_items(workdir, items, jobs=12, per_prog_timeout=120, tag="items", binary
     jobs = max(1, min(jobs, len(items)))
     with ThreadPoolExecutor(jobs) as ex:
         futs = [ex.submit(_run_shard, items_file, os.path.join(workdir, f"{tag}.out.{k}"), jobs, k, len(items),
-                          per_prog_timeout, binary, extra_env) for k in range(jobs)]
+                          per_prog_timeout, binary, extra_env, extra_args) for k in range(jobs)]
         merged = {}
         for f in futs:
             merged.update(f.result())
